@@ -342,4 +342,40 @@ theorem signedInRange_toSigned (w u : Nat) (hw : 0 < w) (hu : u < 2 ^ w) : signe
   unfold signedInRange toSigned
   split <;> omega
 
+theorem b2n_beq_one (v : Nat) (h : v < 2 ^ 1) : b2n (v == 1) = v := by
+  have : v = 0 ∨ v = 1 := by omega
+  rcases this with rfl | rfl <;> rfl
+
+theorem getBit_natToBits_one' (v : Nat) (h : v < 2 ^ 1) : getBit (natToBits 1 v) 0 = (v == 1) :=
+  getBit_natToBits_one v (by omega)
+
+theorem bitsToNat_two_bits (v : Nat) (h : v < 2 ^ 2) :
+    bitsToNat [getBit (natToBits 2 v) 0, getBit (natToBits 2 v) 1] = v := by
+  have : v = 0 ∨ v = 1 ∨ v = 2 ∨ v = 3 := by omega
+  rcases this with rfl | rfl | rfl | rfl <;> rfl
+
+theorem slice_split (bs : Bits) (a b : Nat) (h : bs.length = a + b) : slice bs 0 a ++ slice bs a b = bs := by
+  simp only [slice, List.drop_zero]
+  rw [List.take_of_length_le (l := bs.drop a) (by simp; omega)]
+  exact List.take_append_drop a bs
+
+/-! ## the simp set that evaluates reads of an append chain -/
+
+theorem getBit_singleton_zero (x : Bool) : getBit [x] 0 = x := rfl
+
+theorem slice_length (bs : Bits) (off w : Nat) : (slice bs off w).length = min w (bs.length - off) := by
+  simp [slice]
+
+open Lean.Parser.Tactic in
+/-- `layout_simp [extra lemmas / hypotheses]`: resolve `slice` / `getField` / `getBit` of a
+right-nested append chain of segments of known length, then `ba2int (int2ba v) = v` for in-range `v` -/
+macro "layout_simp" "[" ts:simpLemma,* "]" : tactic =>
+  `(tactic| simp (config := { decide := true }) only [getField, slice_append_right, slice_append_left,
+      slice_append_exact, slice_exact, getBit_append_left, getBit_append_right', getBit_cons_zero,
+      getBit_cons_succ, natToBits_length, zeros_length, bytesToBits_length, slice_length_le, List.length_cons,
+      List.length_nil, List.length_append, bitsToNat_natToBits, n2b_b2n, bitsToNat_singleton, Bool.not_not, b2n_beq_one, getBit_natToBits_one',
+      bitsToNat_two_bits,
+      ↓reduceIte, Nat.reduceAdd, Nat.reduceSub, Nat.reduceMul, Nat.zero_add, Nat.reduceLeDiff,
+      Nat.reduceLT, Nat.reducePow, Nat.lt_irrefl, Nat.reduceEqDiff, $ts,*])
+
 end Dmr
